@@ -35,6 +35,15 @@ type IdP struct {
 	ctr    int
 	// Mode of the whole IdP for userinfo: "" normal, "500", "reset"
 	UserinfoMode string
+	// UserinfoDelay is slept before userinfo answers (set with SetUserinfoDelay): widens the window in
+	// which several cookie checks are in flight at once.
+	userinfoDelay time.Duration
+}
+
+func (p *IdP) SetUserinfoDelay(d time.Duration) {
+	p.mu.Lock()
+	p.userinfoDelay = d
+	p.mu.Unlock()
 }
 
 type IdPReq struct {
@@ -297,6 +306,7 @@ func (p *IdP) userinfo(w http.ResponseWriter, r *http.Request) {
 	p.log(r.URL.Path, "at="+at)
 	p.mu.Lock()
 	mode := p.UserinfoMode
+	delay := p.userinfoDelay
 	st, ok := p.tokens[at]
 	var user, tmode string
 	if ok {
@@ -304,6 +314,9 @@ func (p *IdP) userinfo(w http.ResponseWriter, r *http.Request) {
 		user, tmode = st.User, st.Mode
 	}
 	p.mu.Unlock()
+	if delay > 0 {
+		time.Sleep(delay)
+	}
 	switch mode {
 	case "500":
 		http.Error(w, "boom", 500)
